@@ -7,6 +7,7 @@ package harness
 // hands (request, accepted?, dump) to the Coq model (Clients/Registry.v).
 
 import (
+	"encoding/json"
 	"bytes"
 	"context"
 	"crypto/sha256"
@@ -250,6 +251,21 @@ func c15HeightKey(hgt exported.Height) []byte {
 //      "baseapp" = transaction signed by user k whose authority/signer field is user k;
 //      "forged" = transaction signed by user k whose authority/signer field names someone else
 func (h *c15H) run(opName string, msg sdk.Msg, requester int, via string, call func(ctx context.Context) error) (bool, string) {
+	if via == "failed-batch" {
+		// the request is one message of a governance proposal whose LATER message fails: x/gov executes
+		// all messages on one cached context and throws it away.  The handler itself succeeds; the
+		// request as a whole is refused and must leave nothing behind -- neither in the store nor in
+		// anything the keepers answer from.
+		h.coord.UpdateTimeForChain(h.a)
+		ctx, _ := h.a.GetContext().CacheContext()
+		err := call(ctx)
+		h.a.NextBlock()
+		h.coord.IncrementTime()
+		if err != nil {
+			return false, err.Error()
+		}
+		return false, "sibling message of the proposal failed: branch discarded"
+	}
 	if via == "direct" {
 		h.coord.UpdateTimeForChain(h.a)
 		if vb, ok := msg.(sdk.HasValidateBasic); ok {
@@ -309,6 +325,8 @@ func (h *c15H) authField(requester int, via string) (field string, model string)
 	switch via {
 	case "forged": // signed by user, field names the governance authority: a request by neither
 		return h.gov, "forged-signature-by-" + h.user(requester)
+	case "failed-batch": // for the model: a request that is refused (the proposal it belongs to failed)
+		return h.who(requester), "in-failed-proposal-" + h.who(requester)
 	default:
 		return h.who(requester), h.who(requester)
 	}
@@ -333,6 +351,7 @@ func (h *c15H) finish(coqOp string, d c15Step, before c15Dump, digBefore string,
 			fail("C15:create-overwrote", "create replaced the existing client "+target)
 		}
 	}
+	h.behaviour(fail)
 	for n, c := range before.Clients {
 		c2, still := after.Clients[n]
 		if !still || c2.State == "" {
@@ -405,6 +424,79 @@ func (h *c15H) Register(requester int, via, name string, relayers []string) bool
 	}
 	h.finish(coqOp, c15Step{Op: "register", Via: via, Requester: h.reqName(requester), Name: name, Payload: strings.Join(relayers, ","), OK: ok, Err: e}, before, dig, true, name)
 	return ok
+}
+
+// behaviour: what the keepers ANSWER must be what the raw store says -- routing rules (getter and
+// Authenticate on probe triples, decided field-wise from the stored list), relayer authorisation,
+// client states.  Catches registry state kept outside the store (caches, indexes, package variables)
+// that survives a refused or rolled-back request.
+func (h *c15H) behaviour(fail func(sig, what string)) {
+	ctx := h.a.GetContext()
+	st := h.tibcStore()
+	var raw []string
+	bz := st.Get(host.RoutingRulesKey())
+	if bz != nil {
+		_ = json.Unmarshal(bz, &raw)
+	}
+	got, found := h.a.App.TIBCKeeper.RoutingKeeper.GetRoutingRules(ctx)
+	if found != (bz != nil) || strings.Join(got, ";") != strings.Join(raw, ";") {
+		fail("C15:keeper-answer-differs-from-store", fmt.Sprintf("GetRoutingRules answers %v, the store holds %v", got, raw))
+	}
+	match := func(rule string, f [3]string) bool {
+		p := strings.Split(rule, ",")
+		if len(p) != 3 {
+			return false
+		}
+		for i := range p {
+			if p[i] != "*" && p[i] != f[i] {
+				return false
+			}
+		}
+		return true
+	}
+	probes := [][3]string{{"chain-aa", "chain-bbbbbb", "nft"}, {"x", "y", "z"}, {h.a.ChainName, h.peers[0].ChainName, "tibcmock"}}
+	for _, r := range raw {
+		if p := strings.Split(r, ","); len(p) == 3 {
+			q := [3]string{p[0], p[1], p[2]}
+			for i := range q {
+				if q[i] == "*" {
+					q[i] = "anyvalue"
+				}
+			}
+			probes = append(probes, q)
+		}
+	}
+	for _, q := range probes {
+		want := false
+		for _, r := range raw {
+			if match(r, q) {
+				want = true
+			}
+		}
+		if g := h.a.App.TIBCKeeper.RoutingKeeper.Authenticate(ctx, q[0], q[1], q[2]); g != want {
+			fail("C15:keeper-answer-differs-from-store", fmt.Sprintf("Authenticate%v answers %v, the stored rules %v say %v", q, g, raw, want))
+		}
+	}
+	d := h.dump()
+	for name, rel := range d.Relayers {
+		for k := 1; k <= 2; k++ {
+			want := false
+			for _, r := range rel {
+				if r == h.user(k) {
+					want = true
+				}
+			}
+			if g := h.a.App.TIBCKeeper.ClientKeeper.AuthRelayer(ctx, name, h.user(k)); g != want {
+				fail("C15:keeper-answer-differs-from-store", fmt.Sprintf("AuthRelayer(%s, user%d) answers %v, the stored list says %v", name, k, g, want))
+			}
+		}
+	}
+	for _, p := range h.peers {
+		_, inStore := d.Clients[p.ChainName]
+		if _, g := h.a.App.TIBCKeeper.ClientKeeper.GetClientState(ctx, p.ChainName); g != (inStore && d.Clients[p.ChainName].State != "") {
+			fail("C15:keeper-answer-differs-from-store", "GetClientState("+p.ChainName+") disagrees with the store")
+		}
+	}
 }
 
 func (h *c15H) SetRules(requester int, via string, rules []string) bool {
@@ -508,6 +600,30 @@ type c15Family struct {
 }
 
 func c15Families() []c15Family {
+	return append(c15FamiliesBase(), c15Family{"requests-inside-a-failed-proposal-leave-nothing-behind", func(h *c15H) {
+		B, C := h.peers[0].ChainName, h.peers[1].ChainName
+		h.SetRules(0, "direct", []string{B + "," + C + ",nft"})
+		h.SetRules(0, "failed-batch", []string{"*,*,*"})
+		h.SetRules(0, "failed-batch", []string{})
+		h.Create(0, "failed-batch", B, "tm", 0)
+		h.Create(0, "direct", B, "tm", 0)
+		h.Register(0, "direct", B, []string{h.user(1)})
+		h.Register(0, "failed-batch", B, []string{h.user(2)})
+		h.Register(0, "failed-batch", C, []string{h.user(1)})
+		h.Update(1, "baseapp", 1, B, 0)
+		h.Update(2, "baseapp", 2, B, 0) // user2 was registered only in the failed proposal
+		h.Upgrade(0, "failed-batch", B, "tm", 0)
+		h.Create(0, "failed-batch", C, "eth", 1)
+		h.SetRules(0, "direct", []string{"*," + C + ",*"})
+		h.SetRules(0, "failed-batch", []string{B + "," + C + ",nft"})
+		h.Register(0, "direct", B, []string{h.user(2)}) // drops user1
+		h.Register(0, "failed-batch", B, []string{h.user(1), h.user(2)})
+		h.Update(1, "baseapp", 1, B, 0)
+		h.Update(2, "baseapp", 2, B, 0)
+	}})
+}
+
+func c15FamiliesBase() []c15Family {
 	return []c15Family{
 		{"every-handler-every-requester", func(h *c15H) {
 			B, C := h.peers[0].ChainName, h.peers[1].ChainName
@@ -588,7 +704,7 @@ func c15Families() []c15Family {
 
 func c15Random(h *c15H, r *rand.Rand, n int) {
 	names := []string{h.peers[0].ChainName, h.peers[1].ChainName, "otherchain"}
-	vias := []string{"direct", "direct", "baseapp", "forged"}
+	vias := []string{"direct", "direct", "baseapp", "forged", "failed-batch"}
 	kinds := []string{"tm", "tm", "eth", "tm-badcons", "tm-invalid"}
 	for i := 0; i < n; i++ {
 		req := 0
@@ -598,6 +714,9 @@ func c15Random(h *c15H, r *rand.Rand, n int) {
 		via := pick(r, vias)
 		if req == 0 {
 			via = "direct"
+			if r.Intn(4) == 0 {
+				via = "failed-batch" // the authority's request inside a proposal that fails later
+			}
 		}
 		ni := r.Intn(len(names))
 		name := names[ni]
